@@ -8,7 +8,7 @@ from typing import Dict, List, Optional, Set, Tuple
 from ..core import astutil as A
 from ..core.index import AnalysisError, FuncInfo, external_module
 from ..selftest import M
-from .common import (may_conds, atoms_of, is_early_exit_guard, BASE_OUTLINE, OTF_OUTLINE, T, attr_stores, calls_named, conds, entails, every_origin, fold_body,
+from .common import (subscript_stores, may_conds, atoms_of, is_early_exit_guard, BASE_OUTLINE, OTF_OUTLINE, T, attr_stores, calls_named, conds, entails, every_origin, fold_body,
                      key, need, where)
 
 FID = "ufo2ft.fontInfoData"
@@ -57,6 +57,8 @@ def run(prog, chk):
         "the object returned by getAttrWithFallback (the info's own value or the shared default) is never modified in place (R16.7)",
         "font info values are compared with None, never tested by truthiness, except reviewed string / list attributes: an explicit 0 wins (R16.8)",
     ]
+    chk.decided += ["CFF hint data: the stem entries (StemSnapH / StemSnapV / StdHW / StdVW) are written under tests on the stem attributes alone and the blues entries under tests on the "
+                    "blues attributes alone - explicit stems are not dropped because the font has no alignment zones, nor the other way round (R16.12)"]
     chk.not_decided += ["the field values themselves", "which code points the Unicode database decomposes to ASCII",
                         "that the saved font reloads"]
     static, special = fallback_tables(prog, chk)
@@ -73,6 +75,7 @@ def run(prog, chk):
     chk.guard(r169, prog, chk)
     chk.guard(r1610, prog, chk)
     chk.guard(r1611, prog, chk)
+    chk.guard(r1612, prog, chk)
 
 
 # ------------------------------------------------------------------------- tables
@@ -169,7 +172,38 @@ def possible_values(prog, fi: FuncInfo, expr: ast.AST, _depth=0):
         try:
             return {ix.const_eval(fi.module, expr, cls, env)}
         except (ValueError, TypeError, KeyError, AttributeError, IndexError):
+            pass
+        # an expression over loop variables ('postscript' + key for key in (...)): one value per combination
+        if isinstance(expr, ast.Name):
             return None
+        loopvars = {}
+        for nm in {n.id: n for n in ast.walk(expr) if isinstance(n, ast.Name) and isinstance(n.ctx, ast.Load) and n.id not in env}.values():
+            ds = prog.reaching(fi, nm.id, nm)
+            if not ds or any(d.kind not in ("for", "comp") for d in ds):
+                continue
+            pv = with_env_name(nm, env)
+            if pv is None or len(pv) > 64:
+                return None
+            loopvars[nm.id] = sorted(pv, key=repr)
+        if not loopvars:
+            return None
+        import itertools
+        out = set()
+        names = sorted(loopvars)
+        combos = list(itertools.product(*[loopvars[n] for n in names]))
+        if len(combos) > 256:
+            return None
+        for combo in combos:
+            env2 = dict(env)
+            env2.update(zip(names, combo))
+            try:
+                out.add(ix.const_eval(fi.module, expr, cls, env2))
+            except (ValueError, TypeError, KeyError, AttributeError, IndexError):
+                return None
+        return out
+
+    def with_env_name(name_node, env):
+        return possible_values(prog, fi, name_node, _depth)
 
     r = with_env({})
     if r is not None:
@@ -831,13 +865,24 @@ def r168(prog, chk):
                     attr = ix.const_eval(fi.module, a, prog._class_ctx(fi)) if a is not None else None
                 except Exception:
                     attr = None
+                if attr is None and a is not None:
+                    # a computed name ('postscript' + key in a loop over literal keys): every name it can be
+                    pv = possible_values(prog, fi, a)
+                    if pv and all(isinstance(x, str) for x in pv):
+                        attr = sorted(pv)[0] if len(pv) == 1 else None
+                        if len(pv) > 1:
+                            allok = all(x in TRUTHINESS_OK for x in pv)
+                            chk.ob("R16.8", f"{fi.short}|{'/'.join(sorted(pv))[:60]}|{A.keytext(fi.node, node)[:50]}", allok, where(fi, node), detail="every attribute the computed name can denote is a reviewed string / list attribute",
+                                   message=f"{fi.short}: the value of font info attributes {sorted(x for x in pv if x not in TRUTHINESS_OK)} is tested by truthiness (`{T(node, 60)}`): an explicit 0 / 0.0 is treated "
+                                           f"as absent and replaced, although explicit values must win")
+                            continue
                 ok = isinstance(attr, str) and attr in TRUTHINESS_OK
                 if ok:
                     chk.exempt("R16.8", f"{fi.short}|{attr}|{A.keytext(fi.node, node)[:50]}", TRUTHINESS_OK[attr])
                 chk.ob("R16.8", f"{fi.short}|{attr}|{A.keytext(fi.node, node)[:50]}", ok, where(fi, node), detail=TRUTHINESS_OK.get(attr, "") if isinstance(attr, str) else "",
                        message=f"{fi.short}: the value of font info attribute {attr if attr else T(a, 30)!r} is tested by truthiness (`{T(node, 60)}`): an explicit 0 / 0.0 is treated "
                                f"as absent and replaced, although explicit values must win")
-    chk.minimum("R16.8", 10)
+    chk.minimum("R16.8", 5)
 
 
 # ----------------------------------------------------------------------------- R16.9
@@ -1006,7 +1051,86 @@ def r1611(prog, chk):
     chk.minimum("R16.11", 5)
 
 
+# ----------------------------------------------------------------------------- R16.12
+STEM_KEYS = {"StemSnapH", "StemSnapV", "StdHW", "StdVW"}
+STEM_ATTRS = {"postscriptStemSnapH", "postscriptStemSnapV"}
+BLUES_KEYS = {"BlueValues", "OtherBlues", "FamilyBlues", "FamilyOtherBlues", "BlueFuzz", "BlueShift", "BlueScale", "ForceBold"}
+BLUES_ATTRS = {"postscriptBlueValues", "postscriptOtherBlues", "postscriptFamilyBlues", "postscriptFamilyOtherBlues"}
+
+
+def _info_deps(prog, fi, e, seen=None, depth=0) -> Set[str]:
+    """font info attributes the value of `e` can depend on ('?' when a part cannot be followed)"""
+    seen = set() if seen is None else seen
+    deps: Set[str] = set()
+    if depth > 8:
+        return {"?"}
+    for n in ast.walk(e):
+        if isinstance(n, ast.Call) and prog.is_call_to(fi, n, GETATTR) and len(n.args) >= 2:
+            pv = possible_values(prog, fi, n.args[1])
+            deps |= set(pv) if pv else {"?"}
+        elif isinstance(n, ast.Name) and isinstance(n.ctx, ast.Load) and n.id not in ("self", "any", "all", "isinstance", "list", "len", "bool"):
+            for d in prog.reaching(fi, n.id, n):
+                k = (n.id, id(d.binder))
+                if k in seen or d.value is None:
+                    continue
+                seen.add(k)
+                deps |= _info_deps(prog, fi, d.value, seen, depth + 1)
+                if d.kind in ("for", "comp"):
+                    continue
+            # a local container filled element by element: what was put in
+            for st in A.stmts_of(fi.node):
+                if isinstance(st, ast.Assign) and any(isinstance(t, ast.Subscript) and isinstance(t.value, ast.Name) and t.value.id == n.id for t in st.targets):
+                    k = (n.id, id(st))
+                    if k not in seen:
+                        seen.add(k)
+                        deps |= _info_deps(prog, fi, st.value, seen, depth + 1)
+    return deps
+
+
+def r1612(prog, chk):
+    ix = prog.ix
+    f = ix.get_method(OTF_OUTLINE, "setupTable_CFF", own=True)
+    writes = []  # (node, keys or None for a bulk update)
+    priv = {st.targets[0].id for st in A.stmts_of(f.node) if isinstance(st, ast.Assign) and len(st.targets) == 1 and isinstance(st.targets[0], ast.Name)
+            and isinstance(st.value, ast.Call) and A.callee_name(st.value) == "PrivateDict"}
+    need(priv, f"cannot interpret {f.short}: the Private dict object")
+
+    def is_raw(e):
+        return isinstance(e, ast.Attribute) and e.attr == "rawDict" and isinstance(e.value, ast.Name) and e.value.id in priv
+    for s_, t, v in subscript_stores(f):
+        if is_raw(t.value) and isinstance(t.slice, ast.Constant):
+            writes.append((s_, {t.slice.value}))
+    for c in A.body_nodes(f.node):
+        if isinstance(c, ast.Call) and isinstance(c.func, ast.Attribute) and c.func.attr in ("update", "setdefault") and is_raw(c.func.value):
+            ks = {k.arg for k in c.keywords if k.arg} if (c.keywords and not c.args) else None
+            writes.append((c, ks))
+    need(len(writes) >= 6, f"cannot interpret {f.short}: Private dict writes ({len(writes)})")
+    seen_keys = set()
+    for node, keys in writes:
+        for family, fkeys, own, other in (("stem", STEM_KEYS, STEM_ATTRS, BLUES_ATTRS), ("blues", BLUES_KEYS, BLUES_ATTRS, STEM_ATTRS)):
+            if keys is not None and not (keys & fkeys):
+                continue
+            seen_keys |= (keys or set()) & fkeys
+            tests = [g for g in may_conds(prog, f, node) if g.polarity in (True, False) and g.kind in ("if", "boolop", "ifexp", "while") and not is_early_exit_guard(prog, f, g)]
+            deps = set()
+            for g in tests:
+                deps |= _info_deps(prog, f, g.test)
+            foreign = sorted(d for d in deps if d in other or d == "?")
+            lbl = "/".join(sorted(keys)) if keys else "bulk update"
+            chk.ob("R16.12", f"{f.short}|{A.keytext(f.node, ix.enclosing_stmt(node))}|{family} entries only depend on the {family} attributes", not foreign, where(f, node),
+                   detail=f"{lbl}: written under tests on {sorted(deps) or 'nothing'}",
+                   message=f"{f.short}: the {family} entry `{lbl}` of the CFF Private dict is written under a test that depends on {foreign}: explicit "
+                           f"{'stem widths are dropped when the font defines no alignment zones' if family == 'stem' else 'alignment zones are dropped when the font defines no stems'} "
+                           f"(explicit values must reach the font)")
+    missing = sorted((STEM_KEYS | {"BlueValues", "OtherBlues", "FamilyBlues", "FamilyOtherBlues"}) - seen_keys) if not any(k is None for _, k in writes) else []
+    chk.ob("R16.12", f"{f.short}|every stem / blues entry has a write", not missing, where(f), detail=f"{len(writes)} Private dict writes", nontrivial=False,
+           message=f"{f.short}: no write for the Private dict entries {missing}")
+    chk.minimum("R16.12", 12)
+
+
 MUTANTS = [
+    M("stems only written when the font has blues (seeded C16j)", "ufo2ft/outlineCompiler.py", "OutlineOTFCompiler.setupTable_CFF",
+      "stemSnapH and stemSnapV", "blueValues and stemSnapH and stemSnapV", rule="R16.12"),
     M("unicode ranges set through the fontTools helper that rejects bits above 122 (seeded C16i)", "ufo2ft/outlineCompiler.py", "BaseOutlineCompiler.setupTable_OS2",
       "os2.ulUnicodeRange1 = intListToNum(uniRanges, 0, 32)\nos2.ulUnicodeRange2 = intListToNum(uniRanges, 32, 32)\nos2.ulUnicodeRange3 = intListToNum(uniRanges, 64, 32)\nos2.ulUnicodeRange4 = intListToNum(uniRanges, 96, 32)",
       "os2.setUnicodeRanges(uniRanges)", rule="R16.11"),
